@@ -667,10 +667,10 @@ func unescapeRunes(r []rune, i, end int) string {
 				i++
 			case char1 == 'x' && hexDigit(char2) && hexDigit(char3): // \xHH hex
 				seq = append(seq, hexVal(char2)<<4|hexVal(char3))
-				i += 2
+				i += 3
 			case char1 == 'x' && hexDigit(char2): // \xH hex
 				seq = append(seq, hexVal(char2))
-				i++
+				i += 2
 			case octDigit(char1) && octDigit(char2) && octDigit(char3): // \nnn octal
 				seq = append(seq, (char1-'0')<<6|(char2-'0')<<3|(char3-'0'))
 				i += 3
